@@ -29,7 +29,7 @@ TIERS = {
     },
     "thorough": {
         "id": 2,
-        "runs": 200000,
+        "runs": 150000,
         "twin_share": 1.0,
         "echo_share": 0.01,
         "cfg": {"steps": [24, 40, 60, 80], "clients": [1, 2, 3, 4], "fault_free_share": 0.2},
@@ -69,6 +69,8 @@ class Aggregate:
         self.fired_runs = collections.Counter()
         self.probes = collections.Counter()
         self.topologies = collections.Counter()
+        self.modes = collections.Counter()
+        self.references = 0
         self.warn_modes = collections.Counter()
         self.fault_sets = collections.Counter()
         self.steps = 0
@@ -110,6 +112,8 @@ class Aggregate:
             self.fired_runs.update(k for k, v in s["fired"].items() if v)
             self.probes.update(s["probes"])
             self.topologies[s["topology"]] += 1
+            self.modes[s.get("mode", "mixed")] += 1
+            self.references += s.get("references", 0)
             self.warn_modes[s["warnings"]] += 1
             self.fault_sets["+".join(s["faults"]) or "fault-free"] += 1
             self.interleavings.add(s["interleaving"])
@@ -459,6 +463,16 @@ def write_evidence(args, agg, hellos, wall, n_runs, n_twins, n_echo, lines, rc):
             "fault_configurations": dict(agg.fault_sets),
             "warning_modes": dict(agg.warn_modes),
             "topologies": dict(agg.topologies),
+            "run_modes": dict(agg.modes),
+            "reference_evaluations": agg.references,
+            "invariants_checked": {
+                "I1/I2": "repeat stability / agreement between live handles (implied by I3, used to localise)",
+                "I3": "every READ equals the history-free reference",
+                "I4": "every PROBE (brand-new object on the current, possibly edited, arguments) equals the reference",
+                "I5": "twin run under another PYTHONHASHSEED yields an identical event log, reference side included",
+                "I6": "reference under the dict / JSON-text / envelope forms of the responses is the same (sampled, 1 in 5 references)",
+                "I7": "a reference evaluated alone in its own forked child equals the one evaluated in the batch (2 sampled per run + every mismatch)",
+            },
             "argument_edits_observed": agg.edits,
             "probes": dict(agg.probes),
             "distinct_interleavings": len(agg.interleavings),
